@@ -23,6 +23,21 @@ CHECKS = {
     "C05": dict(cat="exploration", tech=E_IN, ref="DESIGN.md 4/C05",
                 text="Scopes with n<=3 conditionals (quick) so that the impact box {0..2^(n-1)}^n is enumerated completely; oracle is skeptical inference over every c-representation in the box.",
                 note="Trusted: vf/ref.py and the published upper bound 2^(n-1) on impacts needed for skeptical c-inference."),
+    "C06": dict(cat="exploration", tech=E_IN, ref="DESIGN.md 4/C06",
+                text="Every base of four completely enumerated families (256 + 3160 + 256 two-atom bases, 4525 three-atom bases, the empty base) in both modes through consistency() and consistency_indices(), compared layer by layer with the brute-force tolerance partition; diagnostics flags for every fact list of length <=2 over a 7-formula menu x 4 (extended, uses_facts) cases; every operator/back-end/mode must raise on every base of the families that its mode rejects.",
+                note="Trusted: vf/ref.py. <=3 atoms, <=3 conditionals per base (thorough 4)."),
+    "C07": dict(cat="exploration", tech=E_IN, ref="DESIGN.md 4/C07",
+                text="weakly=True, six operator/back-end combinations, all four consistency classes (strong, weak with finite layers, weak without finite layer; inconsistent goes to C06) on two- and three-atom scopes x completely enumerated query sets; oracle: extended definitions (feasible worlds, finite layers, vacuity rules) by brute force; any exception or non-Boolean is a violation.",
+                note="Trusted: vf/ref.py (extended p-entailment cross-checked in setup against ranking models with an infinity class)."),
+    "C08": dict(cat="exploration", tech="bounded-exhaustive differential exploration: all operators on the same (base, query), implication chain checked on their answers, no oracle", ref="DESIGN.md 4/C08",
+                text="All 10 implications of the chain on every (base, query, mode) of: structure representatives of <=4-subsets of literal conditionals, all shipped birds/gen/AO knowledge bases with their query files, a slice of the 484 two-atom representatives, random_large families 6_6..20_20 (thorough: all 100 bases of 12 families up to 60_60) with complete query files plus all 48 literal queries over the first four atoms.",
+                note="Compares the implementation with itself, so it scales to dozens of atoms; single-answer correctness is C01-C07's business."),
+    "C10": dict(cat="exploration", tech="bounded-exhaustive enumeration of token strings / ASTs / layouts / single-token mutations against an independent recursive-descent recogniser", ref="DESIGN.md 4/C10",
+                text="All 299 592 token strings of length <=6 over an 8-token alphabet (thorough <=7), all depth-2 ASTs in minimal and full parenthesisation x 5 layouts, all one-conditional bases x 8 file layouts, every single-token deletion/duplication/substitution/insertion of three files and two query lists; accepted => in the reference language with the same meaning, signature, order, keys, orientation, re-parsable text.",
+                note="Trusted: vf/refparse.py, deliberately generous on layout (ignores newlines) and strict on token structure and end of input; rejections by the implementation are never violations."),
+    "C15": dict(cat="exploration", tech=E_IN, ref="DESIGN.md 4/C15",
+                text="(a) every conditional of three formula families through belief_base_to_cnf and query_to_cnf x all complete assignments, satisfiability under the assignment decided by a hand-written DPLL; (b) minimal_correction_subsets on every WCNF shape the operators build (layers, fixed ties, c-inference compilations, unsatisfiable hard parts) for structure representatives x 5 rc2 SAT engines (thorough: all usable), against the inclusion-minimal falsification sets computed over worlds.",
+                note="Trusted: vf/ref.py, the DPLL in vf/checks/c15.py. Engines that are not installed are excluded by a run-time probe."),
 }
 
 NOT_YET = "check under construction in this session (see DESIGN.md section 4 for the planned exploration)"
